@@ -2,3 +2,5 @@
 //! verification overlay, `#[cfg(kani)]`).
 pub mod c14;
 pub mod env;
+pub mod svc;
+pub mod c05;
